@@ -21,8 +21,9 @@
  *   dread <bs> <filesz> <start> <fragidx> <fragoff> <fstart> <fword> <offset> <size> <w1,..|->
  *                                               sqfs_data_reader_read -> ok <n> | err <NAME>
  *   inode <bs> <hex>                            the bytes as one uncompressed metadata block; read_inode at 0:0
- *                                               -> ok <type> <payload_used> | err
- *   dirent <hex>                                ditto, sqfs_meta_reader_read_dir_ent -> ok <size> | err
+ *                                               -> ok <type> <payload_used> | err <NAME>
+ *   dirent <hex>                                ditto, sqfs_meta_reader_read_dir_ent -> ok <size> | err <NAME>
+ *                                               (the model predicts only ok/err for these two)
  *   unpack <used> <index> <hex payload>         sqfs_inode_unpack_dir_index_entry on a hand-built ext dir inode
  *                                               -> ok <size> | err <NAME>
  *   resolve <hex name> <hex path>               one-entry root directory; sqfs_dir_reader_resolve_path(path)
@@ -278,14 +279,19 @@ int main(void)
 				sqfs_super_t super; sqfs_inode_generic_t *ino = NULL;
 				memset(&super, 0, sizeof(super));
 				super.block_size = U(t[1]);
+				unsigned ty = 0, used = 0;
 				r = sqfs_meta_reader_read_inode(m, &super, 0, 0, &ino);
-				if (r) puts("err"); else printf("ok %u %u\n", (unsigned)ino->base.type, (unsigned)ino->payload_bytes_used);
+				if (!r) { ty = ino->base.type; used = ino->payload_bytes_used; }
+				/* released the way sqfs_dir_reader_resolve_path does it: also after a failed call
+				   (ino was NULL before); done before the answer is printed so that a crash here is
+				   attributed to this line */
 				free(ino);
+				if (r) printf("err %s\n", ename(r)); else printf("ok %u %u\n", ty, used);
 			} else {
 				sqfs_dir_node_t *ent = NULL;
 				r = sqfs_meta_reader_seek(m, 0, 0);
 				if (!r) r = sqfs_meta_reader_read_dir_ent(m, &ent);
-				if (r) puts("err"); else printf("ok %u\n", (unsigned)ent->size);
+				if (r) printf("err %s\n", ename(r)); else printf("ok %u\n", (unsigned)ent->size);
 				free(ent);
 			}
 			sqfs_drop(m); sqfs_drop(f); free(blk); free(b);
